@@ -1081,27 +1081,18 @@ fn pad_integral(
 ) -> fmt::Result {
     let prefix_width = f.alternate() as usize * prefix.len() + f.sign_plus() as usize;
     let min_digits = f.width().unwrap_or(0).saturating_sub(prefix_width);
-    let mut pad = match usize::try_from(digits) {
+    // `digits` is 0 for the number 0, but we still write one digit
+    let mut pad = match usize::try_from(digits.max(1)) {
         Ok(digits) => min_digits.saturating_sub(digits),
         Err(_) => 0,
     };
 
-    if pad != 0 && f.sign_aware_zero_pad() {
-        for _ in 0..pad {
-            f.write_char('0')?;
-        }
-        pad = 0;
-    }
-
-    if f.sign_plus() {
-        f.write_char('+')?;
-    }
-    if f.alternate() {
-        f.write_str(prefix)?;
-    }
-
+    // Like `fmt::Formatter::pad_integral()`: Padding with the fill character
+    // is placed around sign, prefix, and digits, while sign-aware zero padding
+    // is placed between the prefix and the digits.
+    let zero_pad = f.sign_aware_zero_pad();
     let fill_char = f.fill();
-    if pad != 0 {
+    if pad != 0 && !zero_pad {
         let pad_front = match f.align() {
             Some(fmt::Alignment::Left) => 0,
             Some(fmt::Alignment::Center) => pad / 2,
@@ -1111,6 +1102,20 @@ fn pad_integral(
         for _ in 0..pad_front {
             f.write_char(fill_char)?;
         }
+    }
+
+    if f.sign_plus() {
+        f.write_char('+')?;
+    }
+    if f.alternate() {
+        f.write_str(prefix)?;
+    }
+
+    if zero_pad {
+        for _ in 0..pad {
+            f.write_char('0')?;
+        }
+        pad = 0;
     }
 
     write_digits(f)?;
